@@ -54,6 +54,8 @@ pub fn run_raw(case: &RawCase, program: Option<&rusty_parser::Program>) -> RawRu
         monitor_visits: 0,
         monitor_revisits: 0,
     };
+    crate::watch::begin_raw(case);
+    let _watch = crate::watch::Guard;
     let owned;
     let program = match program {
         Some(p) => p,
@@ -375,7 +377,9 @@ pub fn stdin_variants(rng: &mut Rng) -> Vec<Vec<u8>> {
 }
 
 pub fn token_soup(rng: &mut Rng, n: usize) -> Vec<u8> {
-    let toks: [&[u8]; 25] = [
+    let toks: [&[u8]; 28] = [
+        // (sequences that are cut off: a lead byte with nothing behind it, before a separator)
+        b"\xc3", b"\xe2\x82", b"\xf0\x9f",
         b"\"", b"\"\"", b"\"a,b\"", b"\"x",
         b"1", b"23", b"-7", b"99999", b"1.5", b"abc", b"\"q\"", b",", b",", b" ", b"\r\n",
         b"\n", b"\r", b"\xff", b"\0", b"1e40", b"nan", b"inf", b"-inf", b"1e999", b"NaN",
